@@ -27,6 +27,7 @@ import (
 	"path/filepath"
 	"runtime/debug"
 	"sort"
+	"strconv"
 	"strings"
 	"testing"
 	"testing/synctest"
@@ -82,6 +83,8 @@ func xjobs(backends []string) []xjob {
 }
 
 const invalidClass = "invalid"
+
+const xportEndEnv = "C04_XPORT_END" // unix nanoseconds; set by the parent process for its job children
 
 type xcfg struct {
 	Depth      int      // longest history (transport choice on every operation)
@@ -151,6 +154,14 @@ func (o op) spKey() string {
 		parts[i] = s
 	}
 	return strings.Join(parts, "+")
+}
+
+// spClass: the coarse class used in violation keys (one key per failure class, not per spelling).
+func (o op) spClass() string {
+	if o.spelled() {
+		return "respelled"
+	}
+	return "exact"
 }
 
 func (o op) via() string {
@@ -803,6 +814,20 @@ func spelledOps(all []string, c xcfg) []op {
 	return ops
 }
 
+// whyClass: the leading plain words of an oracle message (no handles, ids, counts): one violation key per failure class.
+func whyClass(why string) string {
+	var out []string
+	for _, f := range strings.Fields(why) {
+		if strings.ContainsAny(f, "[]{}()\"=:,#") || len(out) == 5 {
+			break
+		}
+		if len(f) > 1 {
+			out = append(out, f)
+		}
+	}
+	return firstWords(strings.Join(out, " "))
+}
+
 // ---- search -------------------------------------------------------------------------------------------------------
 
 func initModel(backend string) *qmodel.Model {
@@ -869,7 +894,7 @@ func xRun(t *testing.T, backend, dir string, hist []op, s st, o op, judgeAll boo
 				next, why, _ := judgeX(s, h, x, w.listing(), rev)
 				if why != "" {
 					res.Why = fmt.Sprintf("already at operation %d of the history (%s): %s", i+1, h, why)
-					res.VioKey = fmt.Sprintf("x:%s:%s:%s:%s:%s", backend, h.Kind, h.via(), h.spKey(), firstWords(why))
+					res.VioKey = fmt.Sprintf("x:%s:%s:%s:%s:%s", backend, h.Kind, h.via(), h.spClass(), whyClass(why))
 					return
 				}
 				s = next
@@ -886,7 +911,7 @@ func xRun(t *testing.T, backend, dir string, hist []op, s st, o op, judgeAll boo
 			res.Label = "http:" + x.Label
 		}
 		if why != "" {
-			res.VioKey = fmt.Sprintf("x:%s:%s:%s:%s:%s", backend, o.Kind, o.via(), o.spKey(), firstWords(why))
+			res.VioKey = fmt.Sprintf("x:%s:%s:%s:%s:%s", backend, o.Kind, o.via(), o.spClass(), whyClass(why))
 			return
 		}
 		if count != nil {
@@ -894,7 +919,7 @@ func xRun(t *testing.T, backend, dir string, hist []op, s st, o op, judgeAll boo
 		}
 		if why, key := w.probes(next, o, rd, x.Raw, ps); why != "" {
 			res.Why = why
-			res.VioKey = fmt.Sprintf("x:%s:%s:after:%s:%s:%s", backend, key, o.Kind, o.via(), o.spKey())
+			res.VioKey = fmt.Sprintf("x:%s:%s:after:%s:%s:%s", backend, key, o.Kind, o.via(), o.spClass())
 		}
 	})
 	return res
@@ -908,7 +933,11 @@ func xportJob(r *runner.Run, t *testing.T, backends []string, k int) {
 	curBackend = backend
 	cfg := xconfig(r, backend)
 	dir := filepath.Join(runner.Scratch(), "c04x")
-	budget := runner.Pick(r, 50*time.Second, 8*time.Minute)
+	deadline := time.Now().Add(runner.Pick(r, 50*time.Second, 8*time.Minute))
+	// the transport jobs queue behind the HTTP jobs: whenever one starts, the part ends with the HTTP part (TestCheck)
+	if v, err := strconv.ParseInt(os.Getenv(xportEndEnv), 10, 64); err == nil && v > 0 && time.Unix(0, v).Before(deadline) {
+		deadline = time.Unix(0, v)
+	}
 	var ps probeStats
 	count := func(o op, rd reading) {
 		if o.Via == "grpc" {
@@ -926,7 +955,7 @@ func xportJob(r *runner.Run, t *testing.T, backends []string, k int) {
 	}
 	eng := &bfs.Engine[st, op]{
 		Name: "c04x-" + backend, Workers: 1, MaxDepth: cfg.Depth, MaxTrans: runner.Pick(r, int64(2_000_000), int64(30_000_000)),
-		Deadline: time.Now().Add(budget), RootShard: shard, RootShards: xshards,
+		Deadline: deadline, RootShard: shard, RootShards: xshards,
 		Init:    func() st { return st{Remembered: map[string]int64{}, Presented: map[string]int64{}} },
 		InitKey: "init",
 		OpName: func(o op) string {
